@@ -94,7 +94,8 @@ def run(ctx):
     else:
         ctx.model("MC_ZoneTxn", "MC_ZoneTxn_quick.cfg" if quick else "MC_ZoneTxn_thorough.cfg")
         scripts = []
-        ALL = ["add", "replace", "delname", "deltype", "delrds", "serial", "get", "exists", "outzone", "cbraise"]
+        ALL = ["add", "replace", "delname", "deltype", "delrds", "serial", "get", "exists", "getnode", "names", "changed",
+               "outzone", "cbraise"]
         WR = ["add", "replace", "delname", "deltype", "delrds", "serial"]
         # G1: every single call (all argument forms and name spellings) from every initial zone,
         #     ended by commit and by an exception
@@ -135,9 +136,9 @@ def run(ctx):
         ctx.extra["scripts"] = len(scripts)
         jobmap = {j[3]: j for j in jobs}
         traces = ctx.pmap(c10_txn.run_job, jobs)
-        nontrivial = sum(1 for s in scripts if any(e["op"] not in ("init", "begin", "end", "get", "exists") for e in s))
+        nontrivial = sum(1 for s in scripts if any(e["op"] not in ("init", "begin", "end", "get", "exists", "getnode", "names", "changed") for e in s))
         ctx.extra["nontrivial_scripts"] = nontrivial
-        ctx.distinct = set(j[3] for j in jobs if any(e["op"] not in ("init", "begin", "end", "get", "exists") for e in j[0]))
+        ctx.distinct = set(j[3] for j in jobs if any(e["op"] not in ("init", "begin", "end", "get", "exists", "getnode", "names", "changed") for e in j[0]))
         for tr in traces[:3]:
             ctx.sample({"tid": tr["tid"], "ev": tr["ev"][:4]})
     ctx.evaluations = len(traces)
